@@ -9,6 +9,8 @@ pub proof fn axiom_merklehash_key_model() ensures vstd::std_specs::hash::obeys_k
 
 // stands for std::path::{Path, PathBuf}; SystemTime is opaque
 pub struct VxPath { pub id: int }
+impl Clone for VxPath { #[verifier::external_body] fn clone(&self) -> (r: VxPath) ensures r == *self { unimplemented!() } }
+impl Copy for VxPath {}  // only so that ghost code may name a path twice; the extracted code copies paths with to_path_buf()
 impl VxPath {
     #[verifier::external_body]
     pub fn to_path_buf(&self) -> (r: VxPath) ensures r == *self { unimplemented!() }
@@ -25,18 +27,45 @@ pub proof fn axiom_path_of_injective(dir: VxPath, h1: MerkleHash, h2: MerkleHash
 // records (file and xorb entries, as abstract ids) of the shard whose content hash is `h`, and of a serialized shard
 pub uninterp spec fn recs_of(h: MerkleHash) -> Set<int>;
 pub uninterp spec fn data_recs(bytes: Seq<u8>) -> Set<int>;
-// a file found under a hash name holds the shard of that hash (C10's "names equal their content hash", as an input fact)
-pub open spec fn named_content(p: VxPath, bytes: Seq<u8>) -> bool {
-    forall|dir: VxPath, h: MerkleHash| p == #[trigger] path_of(dir, h) ==> data_recs(bytes) == recs_of(h)
-}
-
 pub struct MDBShardError;
 pub type Result<T> = std::result::Result<T, MDBShardError>;
 
-// file system: which paths exist, and the log of paths removed through this handle
-pub struct VxFs { pub exists: Ghost<Set<VxPath>>, pub removed: Ghost<Set<VxPath>> }
+// file system (final names only): which paths exist, the records stored in each file, the log of paths removed through this
+// handle, and `need` = the records that were retrievable when the operation started (C19's reference set)
+pub struct VxFs { pub exists: Ghost<Set<VxPath>>, pub content: Ghost<Map<VxPath, Set<int>>>, pub removed: Ghost<Set<VxPath>>, pub need: Ghost<Set<int>> }
 pub struct VxFile { pub path: Ghost<VxPath>, pub bytes: Ghost<Seq<u8>> }
 pub struct VxCursor { pub data: Ghost<Seq<u8>> }
+// CRASH INVARIANT (process-crash model: a crash happens between two file-system operations): every record that was retrievable
+// before the operation is stored in some existing file.  Every mutating primitive below requires and re-establishes it, so it
+// holds at every crash point of any code that touches the file system only through them.
+pub open spec fn ci(fs: VxFs) -> bool {
+    forall|rec: int| #[trigger] fs.need@.contains(rec) ==> exists|p: VxPath| fs.exists@.contains(p) && #[trigger] fs.content@[p].contains(rec)
+}
+// the records of the file at `p` are, right now, all stored in ANOTHER existing file
+pub open spec fn covered_elsewhere(fs: VxFs, p: VxPath) -> bool {
+    exists|p2: VxPath| p2 != p && fs.exists@.contains(p2) && fs.content@[p].subset_of(#[trigger] fs.content@[p2])
+}
+// the two `ensures ci(final)` below are consequences of the stated state change and preconditions (proved here, not assumed)
+pub proof fn lemma_remove_keeps_ci(fs: VxFs, fs2: VxFs, p: VxPath)
+    requires ci(fs), covered_elsewhere(fs, p), fs2.exists@ == fs.exists@.remove(p), fs2.content@ == fs.content@, fs2.need@ == fs.need@,
+    ensures ci(fs2),
+{
+    let p2 = choose|p2: VxPath| p2 != p && fs.exists@.contains(p2) && fs.content@[p].subset_of(#[trigger] fs.content@[p2]);
+    assert forall|rec: int| #[trigger] fs2.need@.contains(rec) implies exists|q: VxPath| fs2.exists@.contains(q) && #[trigger] fs2.content@[q].contains(rec) by {
+        let q = choose|q: VxPath| fs.exists@.contains(q) && #[trigger] fs.content@[q].contains(rec);
+        if q == p { assert(fs2.exists@.contains(p2) && fs2.content@[p2].contains(rec)); } else { assert(fs2.exists@.contains(q) && fs2.content@[q].contains(rec)); }
+    }
+}
+pub proof fn lemma_write_keeps_ci(fs: VxFs, fs2: VxFs, p: VxPath, recs: Set<int>)
+    requires ci(fs), fs2.exists@ == fs.exists@.insert(p), fs2.content@ == fs.content@.insert(p, recs), fs2.need@ == fs.need@,
+        fs.exists@.contains(p) ==> fs.content@[p].subset_of(recs),
+    ensures ci(fs2),
+{
+    assert forall|rec: int| #[trigger] fs2.need@.contains(rec) implies exists|q: VxPath| fs2.exists@.contains(q) && #[trigger] fs2.content@[q].contains(rec) by {
+        let q = choose|q: VxPath| fs.exists@.contains(q) && #[trigger] fs.content@[q].contains(rec);
+        if q == p { assert(fs2.content@[p].contains(rec)); } else { assert(fs2.exists@.contains(q) && fs2.content@[q].contains(rec)); }
+    }
+}
 impl VxCursor {
     #[verifier::external_body]
     pub fn new(d: &Vec<u8>) -> (r: VxCursor) ensures r.data@ == d@ { unimplemented!() }
@@ -52,29 +81,39 @@ impl VxFs {
     // std::fs::File::open
     #[verifier::external_body]
     fn open(&self, p: &VxPath) -> (r: Result<VxFile>)
-        ensures r matches Ok(f) ==> self.exists@.contains(*p) && f.path@ == *p && named_content(*p, f.bytes@)
+        ensures r matches Ok(f) ==> self.exists@.contains(*p) && f.path@ == *p && data_recs(f.bytes@) == self.content@[*p]
     { unimplemented!() }
     // std::fs::remove_file
     #[verifier::external_body]
     fn remove_file(&mut self, p: &VxPath) -> (r: Result<()>)
+        requires
+            /*@C19,C10*/ ci(*old(self)),
+            // a shard file may be deleted only while its records are held by another existing shard file
+            // (removing a path that does not exist is a NotFound error and changes nothing)
+            /*@C19,C10*/ old(self).exists@.contains(*p) ==> covered_elsewhere(*old(self), *p),
         ensures
+            final(self).content@ == old(self).content@, final(self).need@ == old(self).need@, ci(*final(self)),
             r is Ok ==> final(self).exists@ == old(self).exists@.remove(*p) && final(self).removed@ == old(self).removed@.insert(*p),
             r is Err ==> final(self).exists@ == old(self).exists@ && final(self).removed@ == old(self).removed@,
     { unimplemented!() }
-    // MDBShardFile::write_out_from_reader: writes the bytes to a temp file, renames it to its content-hash name, loads it
+    // MDBShardFile::write_out_from_reader: writes the bytes to a temp file, renames it to its content-hash name, loads it.
+    // Final-name view: on success exactly one file appears (or is replaced by identical content); on failure nothing changes.
     #[verifier::external_body]
     fn write_out_from_reader(&mut self, target_directory: &VxPath, reader: &mut VxCursor) -> (r: Result<Arc<MDBShardFile>>)
+        requires /*@C19,C10*/ ci(*old(self)),
         ensures
-            final(self).removed@ == old(self).removed@,
+            final(self).removed@ == old(self).removed@, final(self).need@ == old(self).need@, ci(*final(self)),
             r matches Ok(f) ==> f.path == path_of(*target_directory, f.shard_hash)
                 && recs_of(f.shard_hash) == data_recs(old(reader).data@)
-                && final(self).exists@ == old(self).exists@.insert(f.path),
-            r is Err ==> final(self).exists@ == old(self).exists@,
+                && final(self).exists@ == old(self).exists@.insert(f.path)
+                && final(self).content@ == old(self).content@.insert(f.path, data_recs(old(reader).data@)),
+            r is Err ==> final(self).exists@ == old(self).exists@ && final(self).content@ == old(self).content@,
     { unimplemented!() }
-    // MDBShardFile::load_all_valid: handles of the hash-named shard files present in the directory, each file once
+    // MDBShardFile::load_all_valid: handles of the hash-named shard files present in the directory, each file once; the file
+    // under a hash name holds the shard with that hash (C10's "names equal their content hash", as an input fact)
     #[verifier::external_body]
     fn load_all_valid(&self, path: &VxPath) -> (r: Result<Vec<Arc<MDBShardFile>>>)
-        ensures r matches Ok(v) ==> loaded_wf(*path, v@, self.exists@)
+        ensures r matches Ok(v) ==> loaded_wf(*path, v@, self.exists@) && loaded_content(v@, self.content@)
     { unimplemented!() }
 }
 // set_operations::shard_set_union (U-SETOPS covers its per-record decisions, not the streaming loop): ASSUMED to produce a
